@@ -122,6 +122,7 @@ type connOutcome struct {
 	opEnd       int
 	opProblem   string
 	quietState  string
+	pollerWon   bool
 }
 
 // runConn executes the scenario under the scheduler and returns what was observed.
@@ -133,6 +134,17 @@ func runConn(t *rapid.T, s connScn, replay []vs.Step) *connOutcome {
 		w.excludeF13()
 	}
 	o := &connOutcome{w: w}
+	// "the poller closed the connection": the hang-up goroutine got past closeBy(poller) - its next step is triggerRead
+	pTrig := e2PointIDFirst("connection_impl.go", "select {")
+	prevHook := w.stepHook
+	w.stepHook = func(step int, a *vs.Actor) {
+		if prevHook != nil {
+			prevHook(step, a)
+		}
+		if strings.HasPrefix(a.Name, "go@") && a.Point() == pTrig {
+			o.pollerWon = true
+		}
+	}
 	r, wfd := w.socketpair()
 	o.fd = r
 	o.opBase, _ = opCensus(w.polls[0])
@@ -521,9 +533,9 @@ func judgeConn(s connScn, o *connOutcome) (sig, msg string) {
 				}
 			}
 		}
-		// the peer closed, nobody else did: OnDisconnect exactly once unless OnConnect never started
-		userClosed := s.Closers > 0 || s.ConnectClose || s.PrepareClose || s.Handler == "close" || panics
-		if s.Disconnect && o.peerClosed && !userClosed && !s.Client {
+		// the poller closed the connection (its closeBy came first, whatever the user did afterwards):
+		// OnDisconnect exactly once before the close callbacks, unless OnConnect was never started
+		if s.Disconnect && o.pollerWon && !s.Client && !s.PrepareClose {
 			started := !s.Connect || idx("connect+") >= 0
 			if started && w.count("disconnect") != 1 {
 				q := idx("quiet")
